@@ -10,6 +10,7 @@ import (
 	"bytes"
 	"fmt"
 	"io"
+	"os"
 	"regexp"
 
 	"github.com/zerx-lab/wordZero/pkg/document"
@@ -268,6 +269,13 @@ func runLists(cs Case, emit Emitter) {
 				case "foreign":
 					p := c.aux.AddParagraph(fmt.Sprintf("X%d", i))
 					run = &p.Runs[0]
+				case "heading":
+					// the text run of the first heading (none: a run outside any document)
+					if p := lstNth(d, 1, lstIsHeading); len(p.Runs) > 0 {
+						run = &p.Runs[len(p.Runs)-1]
+					} else {
+						run = &document.Run{}
+					}
 				default:
 					run = &document.Run{}
 				}
@@ -324,17 +332,35 @@ func runLists(cs Case, emit Emitter) {
 				s.AddTOCEntry("x", 1, 1, "1474600")
 				s.FinalizeTOCSDT()
 			case "Reopen":
-				b, err := d.ToBytes()
-				if err != nil {
-					return "err"
-				}
-				if op.Bool("fresh") {
-					// what a new process would start with
-					document.VerifResetGlobals()
-				}
-				nd, err := document.OpenFromMemory(io.NopCloser(bytes.NewReader(b)))
-				if err != nil {
-					return "err"
+				var nd *document.Document
+				if op.Bool("file") {
+					name := fmt.Sprintf("lst_%d_c%d_%d.docx", os.Getpid(), cs.ID, i) // in the run's scratch directory (cwd)
+					if err := d.Save(name); err != nil {
+						return "err"
+					}
+					if op.Bool("fresh") {
+						document.VerifResetGlobals()
+					}
+					o, err := document.Open(name)
+					os.Remove(name)
+					if err != nil {
+						return "err"
+					}
+					nd = o
+				} else {
+					b, err := d.ToBytes()
+					if err != nil {
+						return "err"
+					}
+					if op.Bool("fresh") {
+						// what a new process would start with
+						document.VerifResetGlobals()
+					}
+					o, err := document.OpenFromMemory(io.NopCloser(bytes.NewReader(b)))
+					if err != nil {
+						return "err"
+					}
+					nd = o
 				}
 				c.docs[di] = nd
 			default:
